@@ -101,7 +101,7 @@ def run(ctx):
                 idx += 1
         rng = ctx.rng('modules')
         for _ in range(120 if quick else 1500):
-            n = rng.randint(3, 8)
+            n = rng.randint(9, 40) if rng.random() < 0.08 else rng.randint(3, 8)
             jobs.append((tmp, idx, [rng.choice(K) for _ in range(n)], rng.choice(['functions', 'mixed', 'mixed']), rng.randint(0, 3)))
             idx += 1
         results = common.pmap(_worker, jobs)
